@@ -51,7 +51,7 @@ impl Fixture {
         let hook = Arc::new(LogAndFail { log: AccessLog::new(), fail: AtomicBool::new(false) });
         let h2 = hook.clone();
         let wrap: crate::subject::StorageWrap = Arc::new(move |st: Arc<dyn Storage>| Arc::new(Hooked::new(st, h2.clone())) as Arc<dyn Storage>);
-        let kind = Kind { backend, entry: Entry::Http, reopen_pct: 0, socket: false, peers: false };
+        let kind = Kind { backend, entry: Entry::Http, reopen_pct: 0, socket: false, peers: false, pinned_first: false };
         // state is built with no allow-list in force ("data from before the list was introduced")
         let subj = Subject::with(kind, Config { snapshot_days: 14, snapshot_versions: 4 }, None, Some(wrap))?;
         let mut rng = Rng::new(seed).fork(0xF1C5);
